@@ -161,7 +161,7 @@ fn explicit_action_wins(explicit: u8, deferred_update: bool) {
     assert_eq!(n, 1, "the source fired again although it returned {}", if explicit == 2 { "Remove" } else { "Disable" });
     if explicit == 2 {
         // ... and is gone: its token is dead
-        assert!(h.enable(&t).is_err(), "a source that returned Remove is still inserted");
+        assert!(matches!(h.enable(&t), Err(calloop::Error::InvalidToken)), "a source that returned Remove is still inserted");
     } else {
         // ... and is merely disabled: enable() brings it back, with the ping that accumulated meanwhile
         h.enable(&t).expect("a source that returned Disable can be enabled again");
